@@ -29,7 +29,11 @@ MANIFEST = {
             "after lost or held-back responses and after requests lost on the way, late responses to superseded requests, duplicates, "
             "Observe registration with several notifications in and out of order, re-registration and cancellation under the same "
             "token, responses with and without their own Partial IV) are compared step by step with S (datagrams, recovered messages, "
-            "rejections) and the client's association store after every step with M; every single-bit flip and truncation of sampled datagrams must be rejected "
+            "rejections) and the client's association store after every step with M; exchanges with a SERVER THAT HOLDS 1-4 CONTEXTS "
+            "(1-3 Recipient IDs each; equal Recipient IDs - also the empty one - under different ID Contexts, equal ID Contexts with "
+            "different Recipient IDs, contexts without ID Context, the client's context first / later / absent) are compared with S "
+            "byte for byte and the selected (context, recipient) position with M, and stores built step by step through the API "
+            "(coap_context_oscore_server, coap_new/delete_oscore_recipient) with direct oscore_find_context() calls with M and S; every single-bit flip and truncation of sampled datagrams must be rejected "
             "where the RFC protects the bit (a test); helpers (option value, AAD, nonce, key derivation) are compared with M and S.",
     "note": "Not theorems: cryptographic strength / unforgeability ('every modification is rejected' is proved only as 'rejected iff "
             "the recomputed tag differs'). M covers libcoap's OSCORE helper functions (CBOR writers, AAD, nonce, option value, option "
@@ -40,7 +44,10 @@ MANIFEST = {
             "twice while the registration lasts) is C15's subject and is neither generated nor judged - libcoap's client accepts such a "
             "duplicate (its response replay check is skipped while the recipient context is in its initial state, which a client's "
             "never leaves): reported, not fixed here. The M = S theorems hold inside libcoap's limits (id <= 7 bytes, "
-            "Partial IV <= 5 bytes, ID Context absent or 1..255 bytes, no Proxy-Uri, sorted options); the examples in Props/C14.lean show "
+            "Partial IV <= 5 bytes, ID Context absent or 1..255 bytes, no Proxy-Uri, sorted options); the context lookup is modelled "
+            "for Appendix B.2 off (its oscore_r2 / no-kid-context forms are transcribed and compared on direct calls, not part of a "
+            "theorem beyond find_context_eq_spec's second half), and the set of contexts of one endpoint is unambiguous (D14.18: two "
+            "contexts with the same Recipient ID and ID Context but different keys would make libcoap try only the first); the examples in Props/C14.lean show "
             "the limits are sharp. GnuTLS's AES-CCM/"
             "HMAC are an oracle on the implementation side, cross-checked against S's own primitives on every case; S's primitives are "
             "tested against FIPS/RFC vectors. 'No handler runs' rests on coap_dispatch() returning when coap_oscore_decrypt_pdu() returns "
@@ -57,7 +64,9 @@ REQUIRED_THEOREMS = ["ccm_roundtrip", "tamper_detected_iff_tag_mismatch", "optio
                      "distinct_piv_distinct_nonce", "distinct_pivs_distinct_nonces", "option_value_eq_spec", "split_eq_spec",
                      "info_eq_spec", "unprotect_protect_request", "unprotect_protect_response", "unprotect_protect",
                      "association_tracks_latest_request", "association_tracks_latest_request_impl", "response_inputs_eq_spec",
-                     "rejected_response_keeps_binding", "sequence_roundtrip"]
+                     "rejected_response_keeps_binding", "sequence_roundtrip", "find_context_eq_spec", "find_context_complete",
+                     "find_context_sound", "find_context_none_iff", "select_ctx_eq_find_context", "unprotect_any_eq",
+                     "unprotect_protect_request_any", "request_for_unknown_context_rejected"]
 RULE = ("exchanges (one request and 0-3 responses/notifications per line) between a client and a server OSCORE context set up "
         "from master secret / salt / ID context / ids 0..7 bytes: all request methods and response codes, inner/outer option "
         "mixes incl. Observe, Block, Proxy-Scheme, Uri-Host/Port, Hop-Limit, No-Response, unknown options, payload 0..1 KiB, "
@@ -72,7 +81,16 @@ RULE = ("exchanges (one request and 0-3 responses/notifications per line) betwee
         "notifications out of order, registration under the token of an unanswered request, re-registration, cancellation, three "
         "retries), 6 % with a server Sender ID the client does not expect (every response must be rejected and every binding "
         "stay); protected request and response bytes, what server and client recover or reject at every step against S, and the "
-        "client's association (partial_iv, nonce, aad, is_observe) after every request and delivery against M; tamper lines: every single-bit flip and every truncation of a protected "
+        "client's association (partial_iv, nonce, aad, is_observe) after every request and delivery against M; multi-context lines "
+        "(oscm): one exchange with a server holding 1..4 security contexts set up by successive coap_context_oscore_server() calls, "
+        "each with 1..3 Recipient IDs, drawn from small pools so that equal Recipient IDs (incl. the empty one) under different ID "
+        "Contexts, equal ID Contexts with different Recipient IDs, ID Contexts that are prefixes of / one byte off each other and "
+        "contexts without ID Context occur routinely, pairwise different (Recipient ID, ID Context); the client belongs to the "
+        "first, a later or (12 %) none of the held pairs; datagrams, recovered messages and rejections against S, the position of "
+        "the selected recipient context against M; store lines (findctx): 4..14 steps of coap_context_oscore_server / "
+        "coap_new_oscore_recipient / coap_delete_oscore_recipient and oscore_find_context() lookups (65 % for a held pair, else near "
+        "misses; kid context given / NULL / with oscore_r2), every result and the final store against M, the lookups of the kind "
+        "coap_oscore_decrypt_pdu does against S; tamper lines: every single-bit flip and every truncation of a protected "
         "datagram, delivered to freshly set-up endpoints (a TEST, labelled as such); helper lines: option value encode/decode, "
         "AAD, nonce, key derivation against M and S; crypto lines: SHA-256/HMAC/HKDF/AES-CCM of S against GnuTLS and the "
         "published vectors; non-trivial = a line on which the recipient accepted at least one protected message (for a sequence: "
@@ -82,8 +100,8 @@ TRUSTED_BASE = ["Lean 4.33 kernel; axioms allowed: propext, Classical.choice, Qu
                 "harness/oscore.c (contexts from configuration strings and zero-initialised sessions as in tests/test_oscore.c; "
                 "coap_send_internal / coap_send_ack_lkd wrapped; sequences: both sessions live for the whole line, lost / late / "
                 "duplicated delivery is done by the harness), the generators incl. the SeqDomain walker, and string comparison",
-                "M (CoapVerif/Model/Oscore.lean, Model/OscoreAssoc.lean) is a hand transcription of libcoap's OSCORE helpers and of the "
-                "places that touch the client's association store; checked against the compiled code only on the cases run",
+                "M (CoapVerif/Model/Oscore.lean, Model/OscoreAssoc.lean, Model/OscoreCtx.lean) is a hand transcription of libcoap's OSCORE "
+                "helpers, of the places that touch the client's association store and of the context store with oscore_find_context; checked against the compiled code only on the cases run",
                 "GnuTLS (AES-CCM, HMAC-SHA-256) is an oracle on the implementation side, cross-checked against S's own primitives on "
                 "every case run; S's primitives are tested against FIPS/RFC vectors (tests, not proofs)"]
 ASSUMPTIONS = ["cryptographic strength (AEAD unforgeability, HKDF/SHA-256 properties) is not a theorem; what is proved is that "
@@ -106,7 +124,11 @@ SPEC_DECISIONS = ["D14.1 outer code POST/2.04, FETCH/2.05 with Observe", "D14.2 
                   "datagram and is not taken for the answer unless it verifies (its AAD carries the old request_piv: it does not)",
                   "D14.16 a binding is consumed by the first response that verifies unless the request was an Observe registration "
                   "(Observe 0); a response that does not verify changes nothing",
-                  "D14.17 replay of a notification is C15's subject, not judged here"]
+                  "D14.17 replay of a notification is C15's subject, not judged here",
+                  "D14.18 a request names the context whose Recipient ID is its kid and whose ID Context is its kid context (absent = "
+                  "empty); the contexts an endpoint holds have pairwise different (Recipient ID, ID Context) (RFC 8613 3.3 deployment "
+                  "requirement; the RFC's 'may need to try several' for indistinguishable contexts is not demanded); a request that "
+                  "names no held context is rejected"]
 RUN_KW = {"timeout": 1200}
 
 # expected values of the published vectors (TESTS of S and of libcoap, keyed by input line)
@@ -150,6 +172,16 @@ KAT_OSC = {
         ["req=440271c30000b932396c6f63616c686f737463091400ff4ed339a5a379b0b8bc731fffb0 "],
     "37cbf3210017a2d3 01 - 20 0 -1 44012f8eef9bbf7a396c6f63616c686f737483747631":
         ["req=44022f8eef9bbf7a396c6f63616c686f73746b19140837cbf3210017a2d3ff72cd7273fd331ac45cffbe55c3 "],
+}
+
+
+# RFC 8613 C.6 / C.4 + C.7 at a server that holds several contexts (corpus/C14/contexts.txt), by suffix of the input line
+KAT_OSCM = {
+    "37cbf3210017a2d3 01 - 44012f8eef9bbf7a396c6f63616c686f737483747631 64452f8eef9bbf7aff48656c6c6f20576f726c6421 0":
+        ["req=44022f8eef9bbf7a396c6f63616c686f73746b19140837cbf3210017a2d3ff72cd7273fd331ac45cffbe55c3 ", " ureq=ok "],
+    "37cbf3210017a2d3 01 - 44015d1f00003974396c6f63616c686f737483747631 64455d1f00003974ff48656c6c6f20576f726c6421 0":
+        ["req=44025d1f00003974396c6f63616c686f7374620914ff612f1092f1776f1c1668b3825e ",
+         " resp=64445d1f0000397490ffdbaad1e9a7e7b2a813d3c31524378303cdafae119106 "],
 }
 
 
@@ -512,6 +544,135 @@ def gen_oseq_line(rng, wrong=None, weird=False, scenario=None):
     return "oseq %s %s %d %d %d %s" % (fmt_params(*cl), fmt_params(*sv), cseq, gen_piv(rng), newmid, " ".join(steps))
 
 
+# ---- several security contexts at the server (ops `oscm`, `findctx`; D14.18) ---------------------------
+def gen_ctx_pools(rng):
+    """small pools of Recipient IDs and ID Contexts, so that stores routinely hold the same Recipient ID (also the empty one)
+    under different ID Contexts, the same ID Context with different Recipient IDs, ID Contexts that are prefixes of / differ in
+    one byte from each other, and contexts without ID Context"""
+    rids = [b""] if rng.random() < 0.7 else []
+    while len(rids) < rng.choice([2, 3, 3, 4]):
+        r = G.rbytes(rng, rng.choice([0, 1, 1, 2, 3, 5, 7]))
+        if rids and rng.random() < 0.3:     # same length as / prefix of / one byte off an id already in the pool
+            b = rng.choice(rids)
+            r = rng.choice([b + b"\x00", b[:-1], bytes([b[0] ^ 1]) + b[1:] if b else b"\x00", b[::-1]])[:7]
+        if r not in rids:
+            rids.append(r)
+    idcs = [None] if rng.random() < 0.6 else []
+    while len(idcs) < rng.choice([2, 3, 3, 4]):
+        c = G.rbytes(rng, rng.choice([1, 2, 8, 8, 8, 9, 12, 16, 20]))
+        have = [x for x in idcs if x]
+        if have and rng.random() < 0.4:
+            b = rng.choice(have)
+            c = rng.choice([b + b"\x00", b[:-1] or b"\x01", b[:-1] + bytes([b[-1] ^ 1]), bytes([b[0] ^ 0x80]) + b[1:], b[:8] + G.rbytes(rng, 4)])[:20]
+        if c not in idcs:
+            idcs.append(c)
+    return rids, idcs
+
+
+def gen_server_store(rng):
+    """1..4 contexts, each (secret, salt, idctx, sid, [rid…]) with 1..3 Recipient IDs; the (Recipient ID, ID Context) pairs are
+    pairwise different (D14.18)"""
+    rids, idcs = gen_ctx_pools(rng)
+    secret, salt = gen_params(rng)[:2]
+    store, keys = [], set()
+    for _ in range(rng.choice([1, 2, 2, 2, 3, 3, 4])):
+        idc = rng.choice(idcs)
+        mine = [r for r in rng.sample(rids, len(rids))[:rng.choice([1, 1, 1, 2, 3])] if (r, idc or b"") not in keys]
+        if not mine:
+            continue
+        keys.update((r, idc or b"") for r in mine)
+        if rng.random() < 0.3:      # other key material too
+            secret, salt = gen_params(rng)[:2]
+        while True:
+            sid = G.rbytes(rng, rng.choice([0, 1, 1, 2, 4, 7]))
+            if sid not in mine:
+                break
+        store.append((secret, salt, idc, sid, mine))
+    return store or gen_server_store(rng)
+
+
+def fmt_entry(e):
+    return "%s %s %s %s %s" % (hx(e[0]), "none" if e[1] is None else hx(e[1]), "none" if e[2] is None else hx(e[2]), hx(e[3]),
+                               ",".join(hx(r) for r in e[4]))
+
+
+def gen_oscm_line(rng, unknown=False):
+    store = gen_server_store(rng)
+    k = rng.randrange(len(store)) if rng.random() < 0.7 else len(store) - 1
+    secret, salt, idc, sid, mine = store[k]
+    rid = rng.choice(mine)
+    cl = [secret, salt, idc, rid, sid]          # the client of pair (k, rid): its Sender ID is the server's Recipient ID
+    if unknown:
+        # a client of a context the server does NOT hold: no (Recipient ID, ID Context) pair of the store is named
+        keys = {(r, e[2] or b"") for e in store for r in e[4]}
+        for _ in range(20):
+            c = rng.random()
+            if c < 0.4: cl[2] = rng.choice([(idc or b"") + b"\x07", None, (idc or b"\x00")[:-1] or b"\x09", G.rbytes(rng, 8)])
+            elif c < 0.8: cl[3] = rng.choice([rid + b"\x00", rid[:-1], G.rbytes(rng, rng.choice([0, 1, 2]))])[:7]
+            else: cl[2], cl[3] = rng.choice([e[2] for e in store]), rng.choice([r for e in store for r in e[4]])
+            if (cl[3], cl[2] or b"") not in keys and cl[3] != cl[4]:
+                break
+        else:
+            return gen_oscm_line(rng, unknown)
+    req, resps = gen_exchange(rng)
+    line = "oscm %s %d %d %d %d %s %s" % (fmt_params(*cl), gen_piv(rng), gen_piv(rng), -1 if rng.random() < 0.3 else rng.randint(0, 0xFFFF),
+                                          len(store), " ".join(fmt_entry(e) for e in store), hx(req))
+    for r, f in resps:
+        line += " %s %d" % (hx(r), f)
+    return line
+
+
+def gen_findctx_line(rng):
+    """a store built step by step through the API and lookups in between (mostly for a pair the store holds — first, later, in a
+    chain of several — else near misses; also the Appendix B.2 forms: no kid context, oscore_r2).  85 % of the lines keep the
+    store unambiguous (D14.18)."""
+    rids, idcs = gen_ctx_pools(rng)
+    if rng.random() < 0.15:
+        idcs.append(b"")
+    unamb = rng.random() < 0.85
+    store, steps = [], []       # store: [idctx, [rid…]] per context, config order
+    keys = lambda: {(r, e[0] or b"") for e in store for r in e[1]}
+    for _ in range(rng.randint(4, 14)):
+        c = rng.random()
+        if not store and c < 0.9 or c < 0.22 and len(store) < 5:
+            idc = rng.choice(idcs)
+            mine = rng.sample(rids, len(rids))[:rng.choice([1, 1, 2, 3])]
+            if unamb:
+                mine = [r for r in mine if (r, idc or b"") not in keys()]
+            if not mine:
+                continue
+            steps.append("c %s %s" % ("none" if idc is None else hx(idc), ",".join(hx(r) for r in mine)))
+            store.append([idc, list(mine)])
+        elif c < 0.30:
+            r = rng.choice(rids) if rng.random() < 0.7 else G.rbytes(rng, rng.choice([0, 1, 7]))
+            if unamb and store and (r, store[0][0] or b"") in keys() and r not in store[0][1]:
+                continue
+            steps.append("a %s" % hx(r))
+            if store and r not in store[0][1]:
+                store[0][1].append(r)
+        elif c < 0.36:
+            r = rng.choice(rids)
+            steps.append("d %s" % hx(r))
+            if store and r in store[0][1]:
+                store[0][1].remove(r)
+        else:
+            pairs = [(r, e[0]) for e in store for r in e[1]]
+            if pairs and rng.random() < 0.65:
+                kid, kc = rng.choice(pairs) if rng.random() < 0.6 else pairs[-1]
+                kc = kc or b""
+            else:
+                kid = rng.choice(rids) if rng.random() < 0.8 else G.rbytes(rng, rng.choice([0, 1, 2, 7]))
+                kc = rng.choice(idcs) or b""
+            r2, c2 = "none", rng.random()
+            if c2 < 0.08: kc = None
+            elif c2 < 0.16: kc = rng.choice([kc + b"\x00", kc[:-1], G.rbytes(rng, rng.choice([0, 1, 8]))])
+            elif c2 < 0.24:
+                long = [x for x in idcs if x and len(x) > 8]
+                r2 = hx(rng.choice(long)[:8] if long and rng.random() < 0.7 else G.rbytes(rng, 8))
+            steps.append("f %s %s %s" % (hx(kid), "null" if kc is None else hx(kc), r2))
+    return "findctx " + " ".join(steps)
+
+
 def gen_tamper_line(rng, small=True):
     secret, salt, idctx, cid, sid = gen_params(rng)
     token = G.rbytes(rng, rng.choice([0, 1, 2, 4]))
@@ -598,6 +759,11 @@ def generate(ctx, escalate=False):
         out.append(gen_tamper_line(rng))
     out += gen_helper_lines(rng, 3000 * k)
     out += gen_crypto_lines(rng, 400 * k)
+    # (generated last: the streams of the older ops stay what they were for a given seed)
+    for i in range(500 * k):
+        out.append(gen_oscm_line(rng, unknown=rng.random() < 0.12))
+    for i in range(800 * k):
+        out.append(gen_findctx_line(rng))
     return out
 
 
@@ -687,6 +853,32 @@ def judge(ctx, c):
             return ("tie", "client association store: implementation %s but model M says %s" % (
                 first_diff(itr.strip(), (m or "").strip()), first_diff((m or "").strip(), itr.strip())))
         return None
+    if op == "oscm":
+        # impl: `<transcript> | sel=<i.j|none>`; driver: S = the transcript with the context the request names (D14.18),
+        # M = the position `oscore_find_context` returns in libcoap's store (Model/OscoreCtx.lean)
+        it, _, isel = (i or "").partition(" | ")
+        if it != s:
+            return ("spec", "server with %s security contexts: implementation %s but the RFC 8613 reference (request handled by "
+                            "the context its kid / kid context name) gives %s" % (c["input"].split()[9], first_diff(it, s), first_diff(s, it)))
+        for key, exp in KAT_OSCM.items():
+            if c["input"].endswith(key):
+                for e in exp:
+                    if e not in it + " ":
+                        return ("spec", "RFC 8613 Appendix C vector not reproduced at a server with several contexts: expected %s in %s" % (e.strip(), short(it)))
+        if isel.strip() != (m or "").strip():
+            return ("tie", "context selected: implementation %s but model M (oscore_find_context) says %s" % (isel.strip(), (m or "").strip()))
+        return None
+    if op == "findctx":
+        # impl / M: result of every store operation and lookup + the final store; S: for the lookups of the kind
+        # coap_oscore_decrypt_pdu does, the first (context, recipient) pair the request names (`~`: the store is ambiguous)
+        ti, ts = (i or "").split(" "), (s or "").split(" ")
+        for k, x in enumerate(ts):
+            if x.startswith("f:") and not x.endswith("~") and (k >= len(ti) or ti[k] != x):
+                return ("spec", "lookup %d in an unambiguous store of security contexts: oscore_find_context gives %s but the pair "
+                                "whose Recipient ID / ID Context the request names is %s" % (k, ti[k] if k < len(ti) else "?", x))
+        if i != m:
+            return ("tie", "context store: implementation %s but model M says %s" % (first_diff(i, m), first_diff(m, i)))
+        return None
     if op in ("sha256", "hmac", "hkdf", "ccm"):
         if c["input"] in KAT and m != KAT[c["input"]]:
             return ("tie", "S's primitive fails its known-answer test: %s, expected %s" % (short(m), KAT[c["input"]]))
@@ -741,6 +933,10 @@ def nontrivial(c):
         return "ureq=ok" in i
     if op == "oseq":
         return "uresp=ok" in i or "late=ok" in i
+    if op == "oscm":
+        return "ureq=ok" in i
+    if op == "findctx":
+        return re.search(r" f:\d", i) is not None
     if op == "tamper":
         return i.startswith("n=")
     return not i.startswith(("rej", "bad", "0 -", "fail", "crash"))
@@ -755,6 +951,10 @@ def classify(c):
         return k + (":observe" if ",6:" in i or "opts=6:" in i else "") + (":rejected" if "=rej" in i else "")
     if op == "tamper":
         return "tamper:" + w[17]
+    if op == "oscm":
+        sel = i.rpartition("sel=")[2]
+        return "oscm:" + ("no-context" if sel == "none" else "first" if sel == "0.0" else "later") + \
+               (":empty-kid" if w[4] == "-" else "") + (":rejected" if "=rej" in i else "")
     if op == "oseq":
         st = oseq_groups(w[14:])
         qs = [g for g in st if g[0] == "q"]
@@ -786,6 +986,10 @@ def search(ctx, tie_breaks, proof):
         out.append(gen_osc_line(rng, wrong=rng.random() < 0.1, weird=rng.random() < 0.2))
     for i in range(60):
         out.append(gen_tamper_line(rng))
+    for i in range(1500):
+        out.append(gen_oscm_line(rng, unknown=rng.random() < 0.1))
+    for i in range(1500):
+        out.append(gen_findctx_line(rng))
     out += gen_helper_lines(rng, 6000)
     return out
 
@@ -831,6 +1035,47 @@ def shrink(ctx, case):
             cc = fails(groups[:k] + groups[k + 1:])
             if cc:
                 groups, best = groups[:k] + groups[k + 1:], cc
+            else:
+                k += 1
+        return best
+    if w[0] == "findctx":
+        # drop steps one at a time (the line has to fail again to be kept)
+        size = {"c": 3, "a": 2, "d": 2, "f": 4}
+        groups, k = [], 1
+        while k < len(w):
+            n = size.get(w[k], 1)
+            groups.append(w[k:k + n]); k += n
+        best, k = case, 0
+        while k < len(groups) and len(groups) > 1:
+            cand = groups[:k] + groups[k + 1:]
+            cc = diff_side(ctx, me, [" ".join(["findctx"] + [x for g in cand for x in g])])[0]
+            v = judge(ctx, cc)
+            if v and v[0] == "spec":
+                cc["why"] = v[1]; groups, best = cand, cc
+            else:
+                k += 1
+        return best
+    if w[0] == "oscm":
+        # drop the responses, then the server's contexts one at a time (the line has to fail again to be kept)
+        def fails(words):
+            cc = diff_side(ctx, me, [" ".join(words)])[0]
+            v = judge(ctx, cc)
+            if v and v[0] == "spec":
+                cc["why"] = v[1]
+                return cc
+            return None
+        best = case
+        ns = int(w[9])
+        base = 10 + 5 * ns
+        cc = fails(w[:base + 1])
+        if cc:
+            w, best = w[:base + 1], cc
+        k = 0
+        while ns > 1 and k < ns:
+            cand = w[:9] + [str(ns - 1)] + w[10:10 + 5 * k] + w[15 + 5 * k:]
+            cc = fails(cand)
+            if cc:
+                w, best, ns = cand, cc, ns - 1
             else:
                 k += 1
         return best
